@@ -264,10 +264,8 @@ func init() {
 					f := smf.Parse(r2.Stdout)
 					rec["writeOk"] = r2.Exit == 0 && f.Err == "" && len(r2.Stdout) > 0
 					ps := [][]int{}
-					for _, e := range f.Events {
-						if e.Kind == smf.KindMeta && (e.A == 1 || e.A == 5 || e.A == 6) {
-							ps = append(ps, append([]int{e.A}, e.Data...))
-						}
+					for _, e := range docTexts(c, f) {
+						ps = append(ps, append([]int{e.A}, e.Data...))
 					}
 					rec["payloads"] = ps
 				}
@@ -279,10 +277,8 @@ func init() {
 				texts := func(b []byte) ([][]int, bool) {
 					f := smf.Parse(b)
 					out := [][]int{}
-					for _, e := range f.Events {
-						if e.Kind == smf.KindMeta && (e.A == 1 || e.A == 5 || e.A == 6) {
-							out = append(out, append([]int{e.A}, e.Data...))
-						}
+					for _, e := range docTexts(c, f) {
+						out = append(out, append([]int{e.A}, e.Data...))
 					}
 					return out, f.Err == "" && len(b) > 0
 				}
@@ -323,8 +319,8 @@ func init() {
 						rec["eot"] = f.TrackLen[0]
 					}
 					tl := []int{}
-					for _, e := range f.Events {
-						if e.Kind == smf.KindMeta && e.A == 1 {
+					for _, e := range docTexts(c, f) {
+						if e.A == 1 {
 							tl = append(tl, len(e.Data))
 						}
 					}
